@@ -28,19 +28,19 @@ PROPS = {
     ),
     "C03": dict(
         title="Offset, DST flag and abbreviation for an instant match the TZ data",
-        verus=["tzif", "posix", ("posix", "_static", STATIC)],
+        verus=["tzif", "posix", ("posix", "_static", STATIC), "tzdispatch"],
         kani_quick=["c17_tzif", "c03_tzdt", "c17_posix", "c18_designation", "c03_posix_wrappers"], kani_thorough=[],
         design_ref="DESIGN.md section 4, C03",
     ),
     "C04": dict(
         title="Civil-to-instant resolution finds gaps/folds exactly; strategies as documented",
-        verus=["tzif", "posix", "ambig", "zoned"],
+        verus=["tzif", "posix", "ambig", "zoned", "tzdispatch"],
         kani_quick=["c03_tzdt"], kani_thorough=[],
         design_ref="DESIGN.md section 4, C04",
     ),
     "C14": dict(
         title="Transition iterators yield exactly the instants where zone offset info changes",
-        verus=["tzif", "posix", ("posix", "_static", STATIC)],
+        verus=["tzif", "posix", ("posix", "_static", STATIC), "tzdispatch"],
         kani_quick=["c03_posix_wrappers"], kani_thorough=[],
         design_ref="DESIGN.md section 4, C14",
     ),
@@ -78,7 +78,7 @@ PROPS = {
     ),
     "C05": dict(
         title="Fallible operations return errors: no panics, no out-of-range results",
-        verus=["posix", "tzif", "rounders", "sdur", "zoned", "span", "civiladd", "civildiff", "ambig", "isoweek", "spanround", "zonedround", "tsarith", "offround", "dtdiff", "zoneddiff"],
+        verus=["posix", "tzif", "rounders", "sdur", "zoned", "span", "civiladd", "civildiff", "ambig", "isoweek", "spanround", "zonedround", "tsarith", "offround", "dtdiff", "zoneddiff", "tzdispatch"],
         all_fns=True,
         kani_quick=["c01_civil", "c02_wrappers"],
         kani_thorough=["c10_model"],
@@ -87,7 +87,7 @@ PROPS = {
     ),
     "C20": dict(
         title="TimeZone handles are memory-safe values under clone, drop, compare and sharing",
-        verus=["tzrepr"],
+        verus=["tzrepr", "tzdispatch"],
         kani_quick=[], kani_thorough=[],
         design_ref="DESIGN.md section 4, C20",
         level_text="Narrow claim: the pointer-free kinds of the tagged-pointer representation (UTC, unknown, fixed offset): for every offset in -93599..=93599 s the encode/decode pair Repr::fixed / Repr::get_fixed is the identity (sign-extending shift included) and the tag bits identify the kind; tags are pairwise distinct. Arc-backed kinds (clone/drop/refcount), multi-threaded sharing and leak freedom are NOT decided by this check (DESIGN.md section 4, C20).",
